@@ -84,6 +84,8 @@ class CallMixin:
                 return
             c = self.contracts.get(f.fullname)
             caller = fr.contract
+            if caller is not None and f.qualname in caller.callee_contracts:
+                c = self.contracts[caller.callee_contracts[f.qualname]]
             force_inline = caller is not None and (f.fullname in caller.inline_calls or f.qualname in caller.inline_calls)
             if c is not None and not force_inline and not fr.spec:
                 yield from self.call_contract(f, c, args, kwargs, st, fr, node)
@@ -294,12 +296,11 @@ class CallMixin:
                         "call-variant", "%s:decreases" % getattr(node, "_ordinal", c.name.split(".")[-1]), node, fr)
             cur.env = dict(env)
         composed = []
-        from .engine import split_mod
+        from .engine import resolve_mod
         for m in c.modifies:
-            base, fld = split_mod(m)
+            obj, fld, is_item = resolve_mod(m, env, cur)
             if fld != "":
                 # a field / item of an object: gets a fresh value of the declared post type
-                obj = env.get(base)
                 if not (isinstance(obj, Ref) and isinstance(cur.get(obj), HObj)):
                     raise SpecError("modifies %s: base is not an object" % m)
                 cur.env = saved_env
@@ -316,7 +317,7 @@ class CallMixin:
                         raise SpecError("post type of %s must not split" % m)
                     val = res[0][1]
                 h2 = cur.get(obj).replace()
-                if "[" in m:
+                if is_item:
                     h2.items[fld] = val
                 else:
                     h2.fields[fld] = val
